@@ -40,7 +40,7 @@ Viol(o) ==
              V(ob.en_is_valid = IsValid(fs[1]), "is-valid")
              \cup V(ob.en_try.r = TryValidate(fs[1]) /\ (ob.en_try.r = "ok" => ob.en_try.bits = ob.in_bits[1]), "try-validate")
              \cup V(ob.en_validate.r = Validate(fs[1]) /\ (ob.en_validate.r = "ok" => ob.en_validate.bits = ob.in_bits[1]), "validate")
-             \cup V(IsValid(fs[1]) => \A j \in 1..Len(ob.en_roots) : "valid" \in DOMAIN ob.en_roots[j] /\ ob.en_roots[j].valid, "root-of-valid-is-valid")
+             \cup V(IsValid(fs[1]) => \A j \in 1..Len(ob.en_roots) : "valid" \in DOMAIN ob.en_roots[j] /\ ob.en_roots[j].valid /\ ob.en_roots[j].in_unit, "root-of-valid-is-valid")
              \cup V(ob.en_zero_one = <<"0000000000000000", "3ff0000000000000">>, "zero-one"))
 
 Init == l = 1
